@@ -168,7 +168,7 @@ def main(ctx):
     comp.sort()
     ctx.extra['compilable_corpus_files'] = len(comp)
     cases = []
-    ncfg = 2 if quick else 40
+    ncfg = 3 if quick else 40
     for rel, lang in comp:
         src = corpus.read(rel)
         for i in range(ncfg):
@@ -185,7 +185,7 @@ def main(ctx):
             cases.append(family.Case(corpus.read(rel), lang, c_domain({n: v}, lang), {'kind': 'corpus', 'file': rel, 'cfgkind': 'single-sweep'}))
     cases.sort(key=lambda c: (c.origin.get('file', ''), ))
     raw = family.explore(ctx, judge, cases, batch=8)
-    raw += family.hyp_explore(ctx, judge, make_strategy, to_case, shards=16, examples=(60 if quick else 6000))
+    raw += family.hyp_explore(ctx, judge, make_strategy, to_case, shards=16, examples=(250 if quick else 6000))
     family.triage(ctx, judge, raw, minimise_src=3000, per_cluster=1)
     ctx.extra['programs'] = ctx.evaluations
     ctx.extra['disagreements_checked'] = ctx.counts.get('raw_failures', 0)
